@@ -35,16 +35,17 @@ type c05event struct {
 }
 
 type c05inst struct {
-	rec      *fix.Rec
-	to       *onet.Token
-	gate     chan struct{}
-	entered  int
-	exited   int
-	accepted int
-	closed   bool
-	running  int
-	order    []int // accepted, in order
-	started  []int
+	rec          *fix.Rec
+	to           *onet.Token
+	gate         chan struct{}
+	entered      int
+	exited       int
+	accepted     int
+	closed       bool
+	doneReturned bool
+	running      int
+	order        []int // accepted, in order
+	started      []int
 }
 
 type c05run struct {
@@ -89,6 +90,11 @@ func (r *c05run) prepare(rec *fix.Rec) {
 			return
 		}
 		r.mu.Lock()
+		if in.doneReturned && r.gated {
+			// scripted cases: Done() was called while the reader was inside a handler or idle with an empty
+			// queue, so nothing was in flight — whatever was queued must be dropped
+			r.fail("handler-after-done", fmt.Sprintf("instance %d: handler for %d entered after the instance's Done() had returned", i, d.Items[0].V))
+		}
 		if in.entered > in.exited {
 			r.fail("handlers-overlap", fmt.Sprintf("instance %d: handler for %d entered while the handler for %d is still running", i, d.Items[0].V, in.running))
 		}
@@ -314,6 +320,7 @@ func c05exec(c *h.Ctx, cs *h.Case) {
 			in.rec.Tni.Done()
 			r.mu.Lock()
 			in.closed = true
+			in.doneReturned = true
 			r.mu.Unlock()
 			time.Sleep(300 * time.Microsecond)
 			cs.Impl = append(cs.Impl, state(i))
@@ -401,6 +408,10 @@ func c05gen(c *h.Ctx, yield func(*h.Case)) {
 	// the instance sends to its own node while its handler is busy and a backlog exists: one more arrival
 	yield(&h.Case{Class: "script-corpus", Ops: []string{
 		"c05 accept 0 1", "c05 accept 0 2", "c05 self 0 3", "c05 accept 0 4", "c05 exit 0", "c05 exit 0", "c05 exit 0", "c05 self 0 5", "c05 exit 0", "c05 exit 0"}})
+	// the instance declares itself done inside the handler of a message that has others queued behind it
+	// (taken from the queue together or not): none of them is handled
+	yield(&h.Case{Class: "script-corpus", Ops: []string{
+		"c05 accept 0 1", "c05 accept 0 2", "c05 accept 0 3", "c05 accept 0 4", "c05 exit 0", "c05 close 0", "c05 exit 0", "c05 exit 0", "c05 accept 0 5", "c05 accept 1 6", "c05 exit 1"}})
 	// a handler that stays blocked for a long time (longer than any plausible internal time limit)
 	yield(&h.Case{Class: "script-long-block", Ops: []string{"c05 accept 0 1", "c05 accept 0 2", "c05 accept 1 3", "c05 sleep 10600",
 		"c05 accept 0 4", "c05 exit 1", "c05 exit 0", "c05 exit 0", "c05 exit 0"}})
